@@ -60,7 +60,8 @@ THEOREMS = {
     "C20": ["fit_perm", "partialFit_perm", "fitRec_perm", "rowsOf_perm", "shift_greedy", "shift_ucb", "shift_softmax_invariant",
             "addXty_scale", "gram_ignores_rewards", "listMax_shift",
             "rowsOf_relabel", "fitRec_relabel", "fit_relabel", "partialFit_relabel", "addArm_relabel", "removeArm_relabel",
-            "init_relabel", "stepOp_relabel", "run_relabel", "expDict_relabel", "argmaxFirst_relabel", "init_run_relabel"],
+            "init_relabel", "stepOp_relabel", "run_relabel", "expDict_relabel", "argmaxFirst_relabel", "init_run_relabel",
+            "armDistance_relabel", "distanceThreshold_relabel", "coldToWarm_relabel", "warmStart_relabel"],
 }
 
 IMPORTS = {
@@ -83,7 +84,7 @@ IMPORTS = {
     "C17": ["MabModel.Props.C17"],
     "C18": ["MabModel.Props.C18"],
     "C19": ["MabModel.Props.C19"],
-    "C20": ["MabModel.Props.C20", "MabModel.Props.C20b"],
+    "C20": ["MabModel.Props.C20", "MabModel.Props.C20b", "MabModel.Props.C20c"],
 }
 
 
